@@ -196,8 +196,11 @@ class Ctx:
         """claim must follow from pc.  Records the verdict; cross-checks with cvc5."""
         import z3
         ok, model = eng.valid(pc, claim)
-        agree = self._cvc5(pc, claim, ok)
-        if ok and self._dup(name, True, key):
+        # second solver: every failing query, and the first instances of every lemma (same query shape afterwards)
+        cnt = self.__dict__.setdefault("_cv_count", {})
+        cnt[name] = cnt.get(name, 0) + 1
+        agree = self._cvc5(pc, claim, ok) if (not ok or cnt[name] <= 3) else "skipped"
+        if self._dup(name, bool(ok), key):
             return ok
         entry = {"name": name, "ok": bool(ok), "key": key, "cvc5": agree}
         if not ok:
